@@ -43,6 +43,7 @@ class Contract:
         self.modifies = g('modifies', [])       # fields of self havocked by a call
         self.updates = g('updates', {})         # {field of self: spec function of the PRE-state} (mutators)
         self.stop_after = g('stop_after', ())   # loop-invariant names after whose exit the path ends (phase proofs)
+        self.quant_prune = g('quant_prune', True)   # use quantified facts to prune branches (slow when the pc holds big invariants)
         self.tier = g('tier', 'quick')          # 'thorough': verified in the thorough tier only (slow)
         self.trusted = g('trusted', False)      # assumed at call sites, body not verified (listed)
         self.c03 = g('c03', False)              # also prove Truthful(result) (C03 construction site)
@@ -202,6 +203,7 @@ def verify_contract(c, timeout_ms=10000, explore_timeout_ms=3000):
         return rep
     I = make_interp(explore_timeout_ms, c.extended)
     I.stop_after_loops = set(c.stop_after)
+    I.ex.quant_prune = c.quant_prune
     prop = c.props[0] if c.props else 'C??'
     short = c.qual.replace('serif.', '', 1)
     try:
